@@ -177,10 +177,10 @@ Proof.
   exists en_iter, (used_of en_iter e_simple), e_simple. split; [reflexivity|]. split; [reflexivity|].
   eexists; vm_compute; reflexivity.
 Qed.
-(* before 6ebed2a: the new name x_i hides a variable of that name the element mentions; the repaired rule leaves the
+(* before 63d3448: the new name x_i hides a variable of that name the element mentions; the repaired rule leaves the
    witness alone *)
-Theorem sub_before_6ebed2a_refuted :
-  exists en used e, covers used e = true /\ sub used e = e /\ eval en (sub_before_6ebed2a used e) <> eval en e.
+Theorem sub_before_63d3448_refuted :
+  exists en used e, covers used e = true /\ sub used e = e /\ eval en (sub_before_63d3448 used e) <> eval en e.
 Proof.
   exists en_capture, (used_of en_capture e_capture), e_capture. split; [reflexivity|]. split; [reflexivity|].
   vm_compute. discriminate.
